@@ -1188,9 +1188,116 @@ func (b *c15BusScenario) run(sIdx, tabIdx, mk int) ([]*c15BusCall, error) {
 	return cs, nil
 }
 
+// ------------------------------------------------------------------ registration
+
+type c15RegCase struct {
+	Tab      int             `json:"tab"`
+	Cmd      bool            `json:"cmd"`
+	Handlers [][2]int        `json:"handlers"`
+	Dup      int             `json:"dup"`   // name in DuplicateCommandHandlerError, 0 = no error
+	Other    string          `json:"other"` // any other error
+	Trace    [][]interface{} `json:"trace"`
+	Subscribed []int         `json:"subscribed"` // topics the router handlers subscribe to (router never run: from Handlers())
+}
+
+func c15RunReg(in *script.Interner, rng *rand.Rand, tab *c15Tab, tabIdx, mk int) (*c15RegCase, error) {
+	c := &c15RegCase{Tab: tabIdx, Cmd: rng.Intn(3) > 0, Trace: [][]interface{}{}}
+	router, err := message.NewRouter(message.RouterConfig{}, watermill.NopLogger{})
+	if err != nil {
+		return nil, err
+	}
+	m := c15Marshaler(mk, nil)
+	pool := []int{ct.TCmdA, ct.TCmdB, ct.TEvtC, ct.TNamed}
+	if c15IsProto(mk) {
+		pool = []int{ct.TPStr, ct.TPInt, ct.TPDur}
+	}
+	n := 1 + rng.Intn(5)
+	hids := map[any]int{}
+	nop := func(context.Context, any) error { return nil }
+	rec := func(ev ...interface{}) { c.Trace = append(c.Trace, ev) }
+	var addErr error
+	if c.Cmd {
+		hs := make([]cqrs.CommandHandler, n)
+		for i := range hs {
+			ty := pool[rng.Intn(len(pool))]
+			hs[i] = c15CmdHandler(ty, fmt.Sprintf("r%d", i), nop)
+			hids[hs[i]] = i
+			c.Handlers = append(c.Handlers, [2]int{i, ty})
+		}
+		cp, err := cqrs.NewCommandProcessorWithConfig(router, cqrs.CommandProcessorConfig{
+			GenerateSubscribeTopic: func(p cqrs.CommandProcessorGenerateSubscribeTopicParams) (string, error) {
+				rec("topic", in.ID(p.CommandName), hids[p.CommandHandler])
+				return "cmd." + p.CommandName, nil
+			},
+			SubscriberConstructor: func(p cqrs.CommandProcessorSubscriberConstructorParams) (message.Subscriber, error) {
+				i := hids[p.Handler]
+				if p.HandlerName != fmt.Sprintf("r%d", i) {
+					i = 999
+				}
+				rec("sub", in.ID(p.CommandName), i)
+				return script.NewSubscriber(true), nil
+			},
+			Marshaler: m})
+		if err != nil {
+			return nil, err
+		}
+		addErr = cp.AddHandlers(hs...)
+		if addErr == nil && len(cp.Handlers()) != n {
+			c.Other = "Handlers() does not list the added handlers"
+		}
+	} else {
+		hs := make([]cqrs.EventHandler, n)
+		for i := range hs {
+			ty := pool[rng.Intn(len(pool))]
+			hs[i] = c15EvtHandler(ty, fmt.Sprintf("r%d", i), nop)
+			hids[hs[i]] = i
+			c.Handlers = append(c.Handlers, [2]int{i, ty})
+		}
+		ep, err := cqrs.NewEventProcessorWithConfig(router, cqrs.EventProcessorConfig{
+			GenerateSubscribeTopic: func(p cqrs.EventProcessorGenerateSubscribeTopicParams) (string, error) {
+				rec("topic", in.ID(p.EventName), hids[p.EventHandler])
+				return "evt." + p.EventName, nil
+			},
+			SubscriberConstructor: func(p cqrs.EventProcessorSubscriberConstructorParams) (message.Subscriber, error) {
+				i := hids[p.EventHandler]
+				if p.HandlerName != fmt.Sprintf("r%d", i) {
+					i = 999
+				}
+				rec("sub", in.ID(p.EventName), i)
+				return script.NewSubscriber(true), nil
+			},
+			Marshaler: m})
+		if err != nil {
+			return nil, err
+		}
+		addErr = ep.AddHandlers(hs...)
+		if addErr == nil && len(ep.Handlers()) != n {
+			c.Other = "Handlers() does not list the added handlers"
+		}
+	}
+	var dup cqrs.DuplicateCommandHandlerError
+	switch {
+	case addErr == nil:
+	case errors.As(addErr, &dup):
+		c.Dup = in.ID(dup.CommandName)
+	default:
+		c.Other = addErr.Error()
+	}
+	nrh := len(router.Handlers())
+	want := n
+	if addErr != nil {
+		want = 0
+	}
+	if nrh != want && c.Other == "" {
+		c.Other = fmt.Sprintf("%d router handlers after AddHandlers of %d handlers (error: %v)", nrh, n, addErr)
+	}
+	return c, nil
+}
+
 // ------------------------------------------------------------------ command
 
 type c15Out struct {
+	RegCases   []*c15RegCase    `json:"regcases"`
 	Tabs       []*c15Tab        `json:"tabs"`
 	Deliveries []*c15Delivery   `json:"deliveries"`
 	Bus        []*c15BusCall    `json:"bus"`
@@ -1289,6 +1396,17 @@ func cmdC15(args []string) error {
 			return fmt.Errorf("bus scenario %d: %w", i, err)
 		}
 		res.Bus = append(res.Bus, cs...)
+	}
+	for i := 0; i < *nBus; i++ {
+		mk := []int{0, 1, 2, 3, 3, 4, 5}[rng.Intn(7)]
+		tab := newC15Tab(mk, in)
+		tabIdx := len(res.Tabs)
+		res.Tabs = append(res.Tabs, tab)
+		c, err := c15RunReg(in, rng, tab, tabIdx, mk)
+		if err != nil {
+			return fmt.Errorf("registration scenario %d: %w", i, err)
+		}
+		res.RegCases = append(res.RegCases, c)
 	}
 	res.Strings = len(in.Tab)
 	return writeJSON(*out, res)
